@@ -108,7 +108,7 @@ def scenario_event(args):
             r = {"res": "ok", "ty": rty, "obs": gen.fresh(s, rty), "tell": -1, "exc": ""}
             try:
                 got = C[rty]().load(rs, betterproto.SIZE_DELIMITED)
-                r["obs"] = dyn.obs_bp(s, got, rty)
+                r["obs"] = dyn.obs_decoded(s, got, rty)
                 r["tell"] = rs.tell()
             except Exception as ex:
                 r["res"], r["exc"] = "raise", type(ex).__name__
